@@ -506,15 +506,55 @@ fn alias_variants(v: &serde_json::Value, salt: u64) -> Vec<serde_json::Value> {
     if paths.is_empty() {
         return out;
     }
-    const STEPS: [i64; 8] = [256, 1024, -1024, 4096, 65_536, -512, 3 * 1024, 1 << 20];
+    // binary table sizes and field widths (2^8 .. 2^24), and decimal packing (10^2, 10^4)
+    const STEPS: [i64; 14] = [256, 1024, -1024, 4096, 65_536, -512, 3 * 1024, 1 << 20, 1 << 23, -(1 << 23), 1 << 24, 1 << 16, 100, 10_000];
     for j in 0..3u64 {
         let path = &paths[((salt / 7 + j) % paths.len() as u64) as usize];
-        let step = STEPS[((salt / 3 + j * 5) % 8) as usize] * (1 + (salt >> 9) as i64 % 3);
+        let k = ((salt / 3 + j * 5) % 14) as usize;
+        let step = STEPS[k] * if k < 8 { 1 + (salt >> 9) as i64 % 3 } else { 1 };
         let mut w = v.clone();
         if let Some(leaf) = at(&mut w, path) {
             if let Some(x) = leaf.as_i64() {
+                // small components are sizes, widths and counts as often as values: they only move by
+                // small steps (a field width of 2^24 characters is a different kind of test)
+                if x.unsigned_abs() < 1_000 && step.unsigned_abs() > 1_024 {
+                    continue;
+                }
                 *leaf = serde_json::Value::from(x + step);
                 out.push(w);
+            }
+        }
+    }
+    // two neighbouring components at once: swapped, and one unit of the first traded for one radix of
+    // the second (keys packed in a mixed radix: month*100 + day, hour*60 + minute, ...)
+    if paths.len() >= 2 {
+        let i = ((salt >> 13) % (paths.len() as u64 - 1)) as usize;
+        let (pa, pb) = (paths[i].clone(), paths[i + 1].clone());
+        let get = |w: &mut serde_json::Value, p: &Vec<String>| at(w, p).and_then(|l| l.as_i64());
+        let mut w = v.clone();
+        if let (Some(a), Some(b)) = (get(&mut w, &pa), get(&mut w, &pb)) {
+            let mut sw = v.clone();
+            if let Some(l) = at(&mut sw, &pa) {
+                *l = serde_json::Value::from(b);
+            }
+            if let Some(l) = at(&mut sw, &pb) {
+                *l = serde_json::Value::from(a);
+            }
+            out.push(sw);
+            let radix = [100i64, 60, 24, 12, 1000, 256, 31, 7][((salt >> 21) % 8) as usize];
+            // (a swap can also move a large value into a size-like component: keep those out)
+            if a.unsigned_abs().max(b.unsigned_abs()) >= 100_000 && a.unsigned_abs().min(b.unsigned_abs()) < 1_000 {
+                out.pop();
+            }
+            for sign in [1i64, -1] {
+                let mut tr = v.clone();
+                if let Some(l) = at(&mut tr, &pa) {
+                    *l = serde_json::Value::from(a - sign);
+                }
+                if let Some(l) = at(&mut tr, &pb) {
+                    *l = serde_json::Value::from(b + sign * radix);
+                }
+                out.push(tr);
             }
         }
     }
@@ -884,10 +924,31 @@ impl Env {
         if let Some(f) = self.judge::<P>(&sib, stats, counting) {
             return Some((vec![case], sib, f));
         }
+        let mut before = vec![case.clone(), sib];
+        // one time in three a third case is judged in between: the case itself with one or two integer
+        // components moved by a power of two / a radix, or two neighbouring components swapped - what
+        // a packed or truncated cache key confuses with the case. Such a variant never came out of
+        // the generator and may lie outside the property's domain, so its own verdict is not used;
+        // what counts is that the original case still passes afterwards.
+        if s % 3 == 0 {
+            if let Ok(v) = serde_json::to_value(&case) {
+                let vars = catch(|| alias_variants(&v, s)).unwrap_or_default();
+                if !vars.is_empty() {
+                    if let Ok(c) = serde_json::from_value::<P::Case>(vars[(s >> 7) as usize % vars.len()].clone()) {
+                        let mut scratch = Stats::default();
+                        let _ = self.judge::<P>(&c, &mut scratch, false);
+                        before.push(c);
+                        if counting {
+                            *stats.labels.entry("judged_again_after_a_packed-key_look-alike").or_default() += 1;
+                        }
+                    }
+                }
+            }
+        }
         let mut scratch = Stats::default();
         if let Some(mut f) = self.judge::<P>(&case, &mut scratch, false) {
-            f.expected = format!("(the same case passed before a sibling case was judged on this thread) {}", f.expected);
-            return Some((vec![case.clone(), sib], case, f));
+            f.expected = format!("(the same case passed before related cases were judged on this thread) {}", f.expected);
+            return Some((before, case, f));
         }
         None
     }
